@@ -97,7 +97,7 @@ def gen_device(rng, kind=None):
     if ev and rng.random() < 0.5:
         for _ in range(rng.choice([1, 2])):
             ev.insert(rng.randrange(len(ev) + 1), {"t": "k", "sub": "", "code": 0, "val": 2})
-    kind = kind or rng.choice(["led"] * 8 + ["early", "noserver"])
+    kind = kind or rng.choice(["led"] * 8 + ["early", "noserver", "slowserver"])
     d = {"cfg": cfg, "abs": [], "events": ev, "leds": c17.gen_layout(rng, cfg), "close_us": rng.randrange(0, 25000),
          "early_ms": -1, "no_server": False, "midi_stream": rng.random() < 0.75}
     if kind == "early":
@@ -105,6 +105,10 @@ def gen_device(rng, kind=None):
     elif kind == "noserver":
         d["no_server"] = True
         d["early_ms"] = rng.choice([0, 100, 260, 600])
+    elif kind == "slowserver":
+        # a slow OpenRGB daemon: every controller query takes 120-350 ms, and the device is unplugged while one is in flight
+        d["slow_ms"] = rng.choice([120, 200, 350])
+        d["early_ms"] = rng.choice([20, 60, 110, 180, 270, 330, 420, 520, 640, 760])
     return d
 
 
@@ -212,6 +216,11 @@ def gen(rng, tier):
                     ev += [{"t": "k", "sub": "", "code": act["mapping_down"], "val": 1}, {"t": "k", "sub": "", "code": act["mapping_down"], "val": 0}]
             d.update({"cfg": cfg, "events": ev, "leds": c17.gen_layout(rng, cfg), "close_us": 15000})
         scenarios.append({"devices": [d], "tag": "corpus-stale-release"})
+    # corpus: a slow OpenRGB daemon, unplugged during the controller discovery (every phase of the first round trips)
+    for early in ((60, 180, 330, 520) if tier == "quick" else (20, 60, 110, 180, 270, 330, 420, 520, 640, 760, 900, 1100)):
+        d = gen_device(rng, "slowserver")
+        d["early_ms"], d["slow_ms"] = early, 300
+        scenarios.append({"devices": [d], "tag": "corpus-slow-server"})
     # several devices built from ONE configuration value (what the manager does for every device that resolves to the same entry of the
     # loaded configurations: two pads on the default gamepad configuration, two keyboards of one model): the copies share their maps.
     # Gamepads sweeping axes with and without an explicit dead zone, keys in between; keyboards with the LED loop running
